@@ -498,3 +498,259 @@ def parse_dump(line):
         k, _, v = kv.partition("=")
         d[k] = v
     return d
+
+
+# --------------------------------------------------------------------------------------------------
+# an independent encoder of function bodies (flat instruction syntax), used to compare the CODE section
+def _op_table():
+    t = {}
+    seq = lambda base, names, pre: t.update({pre + n: bytes([base + i]) for i, n in enumerate(names)})
+    t.update({"unreachable": b"\x00", "nop": b"\x01", "else": b"\x05", "end": b"\x0b", "return": b"\x0f", "drop": b"\x1a",
+              "memory.size": b"\x3f\x00", "memory.grow": b"\x40\x00", "memory.copy": b"\xfc\x0a\x00\x00", "memory.fill": b"\xfc\x0b\x00"})
+    icmp = ["eqz", "eq", "ne", "lt_s", "lt_u", "gt_s", "gt_u", "le_s", "le_u", "ge_s", "ge_u"]
+    fcmp = ["eq", "ne", "lt", "gt", "le", "ge"]
+    iar = ["clz", "ctz", "popcnt", "add", "sub", "mul", "div_s", "div_u", "rem_s", "rem_u", "and", "or", "xor", "shl", "shr_s", "shr_u", "rotl", "rotr"]
+    far = ["abs", "neg", "ceil", "floor", "trunc", "nearest", "sqrt", "add", "sub", "mul", "div", "min", "max", "copysign"]
+    seq(0x45, icmp, "i32.")
+    seq(0x50, icmp, "i64.")
+    seq(0x5b, fcmp, "f32.")
+    seq(0x61, fcmp, "f64.")
+    seq(0x67, iar, "i32.")
+    seq(0x79, iar, "i64.")
+    seq(0x8b, far, "f32.")
+    seq(0x99, far, "f64.")
+    seq(0xa7, ["i32.wrap_i64", "i32.trunc_f32_s", "i32.trunc_f32_u", "i32.trunc_f64_s", "i32.trunc_f64_u", "i64.extend_i32_s",
+               "i64.extend_i32_u", "i64.trunc_f32_s", "i64.trunc_f32_u", "i64.trunc_f64_s", "i64.trunc_f64_u", "f32.convert_i32_s",
+               "f32.convert_i32_u", "f32.convert_i64_s", "f32.convert_i64_u", "f32.demote_f64", "f64.convert_i32_s", "f64.convert_i32_u",
+               "f64.convert_i64_s", "f64.convert_i64_u", "f64.promote_f32", "i32.reinterpret_f32", "i64.reinterpret_f64",
+               "f32.reinterpret_i32", "f64.reinterpret_i64"], "")
+    return t
+
+
+OPS = _op_table()
+MEMOPS = {n: (0x28 + i) for i, n in enumerate(
+    ["i32.load", "i64.load", "f32.load", "f64.load", "i32.load8_s", "i32.load8_u", "i32.load16_s", "i32.load16_u", "i64.load8_s",
+     "i64.load8_u", "i64.load16_s", "i64.load16_u", "i64.load32_s", "i64.load32_u", "i32.store", "i64.store", "f32.store", "f64.store",
+     "i32.store8", "i32.store16", "i64.store8", "i64.store16", "i64.store32"])}
+NATURAL = {"i32.load": 4, "i64.load": 8, "f32.load": 4, "f64.load": 8, "i32.load8_s": 1, "i32.load8_u": 1, "i32.load16_s": 2,
+           "i32.load16_u": 2, "i64.load8_s": 1, "i64.load8_u": 1, "i64.load16_s": 2, "i64.load16_u": 2, "i64.load32_s": 4,
+           "i64.load32_u": 4, "i32.store": 4, "i64.store": 8, "f32.store": 4, "f64.store": 8, "i32.store8": 1, "i32.store16": 2,
+           "i64.store8": 1, "i64.store16": 2, "i64.store32": 4}
+VTCODE = {"i32": 0x7f, "i64": 0x7e, "f32": 0x7d, "f64": 0x7c}
+IDXOPS = {"local.get": 0x20, "local.set": 0x21, "local.tee": 0x22, "global.get": 0x23, "global.set": 0x24, "table.get": 0x25,
+          "table.set": 0x26, "br": 0x0c, "br_if": 0x0d, "call": 0x10}
+
+
+def uleb(v):
+    out = bytearray()
+    while True:
+        b = v & 0x7f
+        v >>= 7
+        if v:
+            out.append(b | 0x80)
+        else:
+            out.append(b)
+            return bytes(out)
+
+
+def sleb(v):
+    out = bytearray()
+    while True:
+        b = v & 0x7f
+        v >>= 7
+        if (v == 0 and not b & 0x40) or (v == -1 and b & 0x40):
+            out.append(b)
+            return bytes(out)
+        out.append(b | 0x80)
+
+
+def is_operand(x):
+    return isinstance(x, str) and not isinstance(x, Str) and (x.startswith("$") or x[:1].isdigit() or x[:1] in "+-")
+
+
+def encode_body(m, f, types):
+    """bytes of the instruction sequence of function record f (flat syntax), including the final `end`"""
+    out = bytearray()
+    body = f["body"]
+    labels = []
+    lnames = [n for n, _ in f["params"]] + [n for n, _ in f["locals"]]
+
+    def local_index(x):
+        if is_id(x):
+            return lnames.index(ident(x))
+        return to_int(x)
+
+    def label_index(x):
+        if is_id(x):
+            n = ident(x)
+            for d, l in enumerate(reversed(labels)):
+                if l == n:
+                    return d
+            raise WatError("unknown label %s" % x)
+        return to_int(x)
+
+    def type_index(x):
+        if is_id(x):
+            for ty in m.types:
+                if ty["name"] == ident(x):
+                    return types.index((tuple(t for _, t in ty["params"]), tuple(ty["results"])))
+            raise WatError("unknown type %s" % x)
+        return to_int(x)
+
+    i = 0
+    while i < len(body):
+        op = body[i]
+        i += 1
+        if isinstance(op, list) or isinstance(op, Str):
+            raise WatError("unexpected %r in body" % (op,))
+        if op in ("block", "loop", "if"):
+            lab = None
+            if i < len(body) and is_id(body[i]):
+                lab = ident(body[i])
+                i += 1
+            res = ()
+            if i < len(body) and isinstance(body[i], list) and body[i] and body[i][0] == "result":
+                res = tuple(body[i][1:])
+                i += 1
+            labels.append(lab)
+            out.append({"block": 2, "loop": 3, "if": 4}[op])
+            if len(res) == 0:
+                out.append(0x40)
+            elif len(res) == 1:
+                out.append(VTCODE[res[0]])
+            else:
+                out += sleb(types.index(((), res)))
+        elif op == "end":
+            if not labels:
+                raise WatError("unbalanced end")
+            labels.pop()
+            out.append(0x0b)
+        elif op in ("br", "br_if"):
+            out.append(IDXOPS[op])
+            out += uleb(label_index(body[i]))
+            i += 1
+        elif op == "br_table":
+            ls = []
+            while i < len(body) and is_operand(body[i]):
+                ls.append(label_index(body[i]))
+                i += 1
+            out.append(0x0e)
+            out += uleb(len(ls) - 1)
+            for x in ls:
+                out += uleb(x)
+        elif op == "call":
+            out.append(0x10)
+            out += uleb(func_index(m, ident(body[i]) if is_id(body[i]) else to_int(body[i])))
+            i += 1
+        elif op == "call_indirect":
+            tab = 0
+            if i < len(body) and is_operand(body[i]):
+                tab = 0 if is_id(body[i]) else to_int(body[i])
+                i += 1
+            tu = body[i]
+            i += 1
+            if not (isinstance(tu, list) and tu and tu[0] == "type"):
+                raise WatError("call_indirect without (type …)")
+            out.append(0x11)
+            out += uleb(type_index(tu[1])) + uleb(tab)
+        elif op == "select":
+            if i < len(body) and isinstance(body[i], list) and body[i] and body[i][0] == "result":
+                out += bytes([0x1c, len(body[i]) - 1] + [VTCODE[t] for t in body[i][1:]])
+                i += 1
+            else:
+                out.append(0x1b)
+        elif op in ("local.get", "local.set", "local.tee"):
+            out.append(IDXOPS[op])
+            out += uleb(local_index(body[i]))
+            i += 1
+        elif op in ("global.get", "global.set"):
+            out.append(IDXOPS[op])
+            out += uleb(global_index(m, ident(body[i]) if is_id(body[i]) else to_int(body[i])))
+            i += 1
+        elif op in ("table.get", "table.set"):
+            out.append(IDXOPS[op])
+            out += uleb(0 if is_id(body[i]) else to_int(body[i]))
+            i += 1
+        elif op in MEMOPS:
+            off, al = 0, NATURAL[op]
+            while i < len(body) and isinstance(body[i], str) and not isinstance(body[i], Str) and body[i].split("=")[0] in ("offset", "align"):
+                k, _, v = body[i].partition("=")
+                if v == "":           # written with blanks around '=': offset = 8
+                    v = body[i + 2] if body[i + 1] == "=" else body[i + 1].lstrip("=")
+                    i += 2 if body[i + 1] == "=" else 1
+                if k == "offset":
+                    off = to_int(v)
+                else:
+                    al = to_int(v)
+                i += 1
+            out.append(MEMOPS[op])
+            out += uleb(al.bit_length() - 1) + uleb(off)
+        elif op == "memory.init":
+            out += b"\xfc\x08" + uleb(to_int(body[i])) + b"\x00"
+            i += 1
+        elif op == "i32.const":
+            v = to_int(body[i])
+            i += 1
+            if v >= 1 << 31:
+                v -= 1 << 32
+            out.append(0x41)
+            out += sleb(v)
+        elif op == "i64.const":
+            v = to_int(body[i])
+            i += 1
+            if v >= 1 << 63:
+                v -= 1 << 64
+            out.append(0x42)
+            out += sleb(v)
+        elif op == "f32.const":
+            out.append(0x43)
+            out += struct.pack("<I", to_float_bits(body[i], 32))
+            i += 1
+        elif op == "f64.const":
+            out.append(0x44)
+            out += struct.pack("<Q", to_float_bits(body[i], 64))
+            i += 1
+        elif op in OPS:
+            out += OPS[op]
+        else:
+            raise WatError("unsupported instruction %r" % (op,))
+    if labels:
+        raise WatError("unbalanced block")
+    out.append(0x0b)
+    return bytes(out)
+
+
+def encode_code_functions(m):
+    """[bytes] — for every defined function: local declarations + body, WITHOUT the size prefix"""
+    types = type_list(m)
+    outs = []
+    for f in m.funcs:
+        runs = []
+        for _, t in f["locals"]:
+            if runs and runs[-1][1] == t:
+                runs[-1][0] += 1
+            else:
+                runs.append([1, t])
+        b = uleb(len(runs)) + b"".join(uleb(n) + bytes([VTCODE[t]]) for n, t in runs)
+        outs.append(b + encode_body(m, f, types))
+    return outs
+
+
+def split_code_section(sec):
+    """code section body -> [function bytes without size prefix]"""
+    def rd(b, i):
+        r = s = 0
+        while True:
+            c = b[i]
+            i += 1
+            r |= (c & 0x7f) << s
+            s += 7
+            if c < 0x80:
+                return r, i
+    n, i = rd(sec, 0)
+    out = []
+    for _ in range(n):
+        ln, i = rd(sec, i)
+        out.append(sec[i:i + ln])
+        i += ln
+    return out
